@@ -243,3 +243,25 @@ Proof.
   - inversion Hb; subst. rewrite Hlog. reflexivity.
   - intros x Hx. eapply Hreach; [apply Hreach_ext, Hrest, Hx|exact Hin].
 Qed.
+
+(* the same with the sort's precondition instead of its result: the entry point is the only
+   file at distance 0 and every file of the chunk is reachable from it *)
+Lemma order_is_esm_keys g keys e t0 l :
+  (forall s t, In t (stmt_targets (getm g s)) -> t <> 0%nat /\ (t < length g)%nat) ->
+  stmt_targets (getm g 0) = [] ->
+  (forall s, followed g s = stmt_targets (getm g s)) ->
+  (forall s, s <> 0%nat -> (s < length g)%nat -> in_chunk g s = true) ->
+  e <> 0%nat -> (e < length g)%nat ->
+  In (0, t0, e) keys -> (forall k, In k keys -> k = (0, t0, e) \/ 0 < kdist k) ->
+  (forall k, In k keys -> reach (followed g) e (snd k)) ->
+  bundle_order g keys = Some l ->
+  spec_eval_order g e = Some (filter nz l).
+Proof.
+  intros Hwf H0 Hfol Hlive He0 Hen Hin Hall Hreach Hb.
+  destruct (entry_sorts_first_all keys e t0 Hin Hall) as [rest Hs].
+  eapply order_is_esm_all; eauto.
+  intros x Hx.
+  assert (Hx2 : In x (chunk_sorted keys)) by (rewrite Hs; right; exact Hx).
+  unfold chunk_sorted in Hx2. apply in_map_iff in Hx2 as [k [Hk Hks]]. subst x.
+  apply Hreach. apply sort_keys_In. exact Hks.
+Qed.
